@@ -402,7 +402,7 @@ RESULT_FUNCS = ("vector.Vector._elementwise_operation", "vector.Vector.__radd__"
 
 
 def _result_sites(ctx) -> None:
-    from ..sites2 import all_sites2, element_values, is_never_none_term, leaves, strip_seq
+    from ..sites2 import all_sites2, element_values, is_never_none_term, leaves, same_elements_of, strip_seq
     from ..symx import NONE as SNONE
     prog = ctx.prog
     wanted = set(RESULT_FUNCS)
@@ -441,6 +441,12 @@ def _result_sites(ctx) -> None:
                         why = "object over values that cannot be None"
                     else:
                         ok, why = False, "constant object dtype over data that may hold None"
+                elif d[0] == "attr" and d[2] == "_dtype" and s.data is not None and all(
+                        strip_seq(it, x) == d[1] or ((same_elements_of(it, x) or (None, ""))[0] == d[1]
+                                                     and same_elements_of(it, x)[1] in ("identity", "permutation"))
+                        for x in leaves(s.data)):
+                    # not a computed result: an operand column reproduced with all of its own elements (window's key columns)
+                    why = f"a copy of {s.sh(d[1], 30)} (all of its own elements) under its own dtype"
                 else:
                     ok, why = False, f"explicit dtype `{s.sh(d, 50)}` instead of inference over the result values"
         k = ords[owner.qualname] = ords.get(owner.qualname, 0) + 1
